@@ -155,7 +155,8 @@ def step (_ : Unit) (line : String) : Unit × String :=
     | "write" :: mode :: tree =>
       match readTree tree with
       | some v =>
-        match save F64.ops (mode == "1") v with
+        -- written to a stream with an en_US-style numpunct ('.' decimal point, ',' groups of 3)
+        match saveTo F64.ops ⟨46, 44, [3]⟩ (mode == "1") v with
         | some t => toHex t ++ " " ++ rtCode (mode == "1") v t
         | none => "throw"
       | none => "bad-op"
